@@ -227,6 +227,10 @@ def run(prop, argv):
         t1 = time.time()
         events, verdicts, hazards = corelib.judge(rep, wd, out, plan["invariants"], prop, chunk=2500)
         rep.cov["phase_s"] = {"replay_on_real_code": round(t1 - t0, 1), "judge": round(time.time() - t1, 1)}
+        if prop in ("C06", "C07") and not replay_path:
+            t2 = time.time()
+            corelib.replica_conformance(rep, wd, out, prop)
+            rep.cov["phase_s"]["conformance"] = round(time.time() - t2, 1)
         rep.cov["traces_validated_against_impl"] = len(events)
         rep.cov["evaluations"] = len(events)
         nontriv = 0
